@@ -352,25 +352,25 @@ def generate(text):
     o.append("Definition GEN_REPR_SHAVE_BITS : Z := %d." % shave)
     o.append("")
     o.append("(* fn mont_reduce(&mut self, %s) *)" % ", ".join(mr_args))
-    o.append("Definition g_mont_reduce (%s : Z) : limbs :=" % " ".join(mr_args))
+    o.append("Definition gl_mont_reduce (%s : Z) : limbs :=" % " ".join(mr_args))
     o.append("  let '(m0, m1, m2) := MODULUS_LIMBS in")
     for l in mr_lines:
         o.append("  " + l)
     o.append("  reduce MODULUS_LIMBS (%s, %s, %s)." % tuple(mr_final[1]))
     o.append("")
     o.append("(* impl MulAssign<&Fp> for Fp: fn mul_assign(&mut self, other: &Fp) *)")
-    o.append("Definition g_mul (a b : limbs) : limbs :=")
+    o.append("Definition gl_mul (a b : limbs) : limbs :=")
     o.append("  let '(a0, a1, a2) := a in let '(b0, b1, b2) := b in")
     for l in mul_lines:
         o.append("  " + l)
-    o.append("  g_mont_reduce %s." % " ".join(mul_final[1]))
+    o.append("  gl_mont_reduce %s." % " ".join(mul_final[1]))
     o.append("")
     o.append("(* fn square(&self) -> Self *)")
-    o.append("Definition g_square (a : limbs) : limbs :=")
+    o.append("Definition gl_square (a : limbs) : limbs :=")
     o.append("  let '(a0, a1, a2) := a in")
     for l in sq_lines:
         o.append("  " + l)
-    o.append("  g_mont_reduce %s." % " ".join(sq_final[1]))
+    o.append("  gl_mont_reduce %s." % " ".join(sq_final[1]))
     o.append("")
     for nm, ch in (("invert_chain", inv_chain), ("sqrt_chain", sqrt_chain)):
         o.append("(* the addition chain of `%s`: step k defines t_k from earlier t's (t_0 = self); the result is the last *)" % nm.split("_")[0])
@@ -389,7 +389,7 @@ def main():
         st = {}
     if st.get("hash") == h and os.path.exists(OUT) and hashlib.sha256(open(OUT, "rb").read()).hexdigest() == st.get("out") and os.environ.get("VERIF_LIMBS_PIN") != "1":
         for w in st.get("warnings", []):
-            print("warning: " + w)
+            print("WARNING " + w)
         print("LimbGen.v up to date (inputs of the macro unchanged)")
         return 0
     try:
@@ -405,7 +405,7 @@ def main():
     else:
         print("LimbGen.v unchanged")
     for w in warnings:
-        print("warning: " + w)
+        print("WARNING " + w)
     os.makedirs(CACHE_DIR, exist_ok=True)
     json.dump({"hash": h, "out": hashlib.sha256(content.encode()).hexdigest(), "warnings": warnings}, open(STAMP, "w"))
     return 0
